@@ -8,9 +8,11 @@ search      spec-oracle:  `arabic cls` — the crate's joining pass on represent
                           <= 6 x contexts of length 0/1 in thorough, a stride of it in quick; random long words
             known-chars:  joining class of well-known characters (independent mini-source for the table)
             metamorphic:  context-as-text and T-insertion on the crate alone, random real characters
-            shape-e2e:    through shape() on generated positional-forms fonts, one per script that owns joining letters
+            shape-e2e:    through shape() on generated positional-forms fonts, per script that owns joining letters
                           in the crate's table (scripts, letters, OpenType tags, directions all derived from the crate's
-                          data; needs tools/fontbuild.py)
+                          data; needs tools/fontbuild.py) one font per ScriptList layout: own tag(s), only DFLT / dflt /
+                          latn, several fall-backs, features under a language system selected (or not) by the buffer
+                          language, no usable record; layouts for which the default shaper is due by design are counted
 """
 import itertools, os
 import vlib
@@ -546,15 +548,76 @@ def joining_scripts(ctx, shim, ch, r, cap):
     return out
 
 
-def e2e_font(sd):
+# The script records select_script falls back to when the font has none of the script's own tags, in its order
+# (ot_layout.rs::select_script, hb_ot_layout_table_select_script): 'DFLT', 'dflt' (a frequent typo), 'latn'.
+FALLBACK_SCRIPTS = ["DFLT", "dflt", "latn"]
+UNRELATED_SCRIPT = "grek"          # a script record no joining script ever selects
+LANG_POOL = ["ur", "fa", "ar", "syr", "mn", "ps", "sd", "ug", "ku", "ms", "nqo", "ff"]
+OTHER_LANG = "en"
+
+
+class Variant:
+    """One ScriptList layout of the positional-forms font.
+    name     label
+    records  the ScriptList recipe (tools/fontbuild.py)
+    chosen   the script tag select_script must choose for this script's text (None: no usable record)
+    lang     None, or (BCP 47 language, its OpenType tag): the 7 features sit ONLY under that language system
+    main     the layout with the script's own tags and the features under the default language system"""
+
+    def __init__(self, name, records, chosen, lang=None, main=False):
+        self.name, self.records, self.chosen, self.lang, self.main = name, records, chosen, lang, main
+
+
+def e2e_variants(sd, lang):
+    """ScriptList layouts a font for script `sd` may come with; every record carries the same 7 features, so the
+    output tells whether the joining analysis ran, not which record was read."""
+    own = [tag_str(t) for t in sd.ot]
+    full = {"required": None, "features": list(range(7))}
+    empty = {"required": None, "features": []}
+
+    def rec(t, default=full, langs=()):
+        return {"tag": t, "default": default, "langs": list(langs)}
+    vs = [Variant("own", [rec(t) for t in own], own[0], main=True)]
+    if len(own) > 1:                       # 'new' and 'old' tag of a script alone (the crate maps several tags)
+        vs += [Variant("own-only-" + t.strip(), [rec(t)], t) for t in own]
+    vs += [Variant("only-" + t, [rec(t)], t) for t in FALLBACK_SCRIPTS]
+    vs.append(Variant("DFLT+latn+" + UNRELATED_SCRIPT, [rec("DFLT"), rec("latn"), rec(UNRELATED_SCRIPT)], "DFLT"))
+    vs.append(Variant("own+empty-DFLT", [rec(t) for t in own] + [rec("DFLT", empty)], own[0]))
+    vs.append(Variant("only-" + UNRELATED_SCRIPT, [rec(UNRELATED_SCRIPT)], None))
+    if lang:
+        lrec = {"tag": lang[1], "required": None, "features": list(range(7))}
+        vs.append(Variant("own/lang", [rec(t, None, [lrec]) for t in own], own[0], lang=lang))
+        vs.append(Variant("only-DFLT/lang", [rec("DFLT", empty, [lrec])], "DFLT", lang=lang))
+    return vs
+
+
+def e2e_exempt(sd, d, chosen):
+    """Shaped WITHOUT the joining analysis by design (hb-ot-shaper.hh, repeated in ot_shaper.rs): "If the designer
+    designed the font for the 'DFLT' script (or we ended up arbitrarily pick 'latn'), use the default shaper" — except
+    that Arabic SCRIPT keeps the Arabic shaper "even if no OT script tag was found", and the scripts of the Arabic
+    shaper have no 'latn' clause; vertical text of the Arabic shaper's scripts goes to the default shaper.  Written
+    here from those texts, NOT asked from the crate (the same rule is Props/C11.lean::joiningExempt, proved over the
+    regenerated probe); only `sd.shaper` (the shaper for the script's own tag) is the crate's answer."""
+    if sd.shaper == "arabic" and d in ("t", "b"):
+        return True
+    if chosen == "DFLT":
+        return sd.iso != "Arab"
+    if chosen == "latn":
+        return sd.shaper == "use"
+    return False
+
+
+def e2e_font(sd, var=None):
     k = len(sd.letters)
     tags = [tag_str(t) for t in sd.ot]
+    scripts = var.records if var is not None else \
+        [{"tag": t, "default": {"required": None, "features": list(range(7))}, "langs": []} for t in tags]
     return {
         "num_glyphs": 1 + 8 * k,
         "cmap": {c: 1 + i for i, c in enumerate(sd.letters)},
         "advances": [600] * (1 + 8 * k),
         "gsub": {
-            "scripts": [{"tag": t, "default": {"required": None, "features": list(range(7))}, "langs": []} for t in tags],
+            "scripts": scripts,
             "features": [{"tag": f, "lookups": [j]} for j, f in enumerate(FEATS)],
             "lookups": [{"type": 1, "flag": 0,
                          "subtables": [{"format": 1, "coverage": {"ranges": [(1, k)]}, "delta": k * (j + 1)}]}
@@ -563,46 +626,71 @@ def e2e_font(sd):
     }
 
 
+def xlang(l):
+    return "x" + l.encode().hex()
+
+
 def shape_e2e(ctx, shim, model, ch, r, n, per_script):
     """End to end through the public shape(), for EVERY script that owns joining letters in the crate's table: per
-    script a font whose GSUB has the script's OpenType tag(s) and 7 positional features mapping every letter to a
-    distinct glyph per form; the form read off the output glyph must be the spec's form (Lean spec through
-    `arabic cls`; for Mongolian additionally: a free variation selector shows the form of the item before it)."""
+    script a family of fonts with 7 positional features mapping every letter to a distinct glyph per form, one font per
+    ScriptList layout (`e2e_variants`: the script's own OpenType tag(s); only 'DFLT' / 'dflt' / 'latn'; several
+    fall-backs; own tags next to an empty 'DFLT'; the features only under a language system that the buffer language
+    selects — or does not; no usable record).  The form read off the output glyph must be the spec's form (Lean spec
+    through `arabic cls`; for Mongolian additionally: a free variation selector shows the form of the item before it)
+    wherever the joining analysis is due (`e2e_exempt` lists where it is not: those cases are counted, not judged)."""
     try:
         import fontbuild
     except ImportError:
         ctx.cov.setdefault("not_run", []).append("shape-e2e: tools/fontbuild.py not available")
         return
     scripts = joining_scripts(ctx, shim, ch, r, ctx.budget(24, 400))
-    cases = []   # (script data, dir, explicit script?, pre, word, post) as class words
-    info = {}
+    # language systems: BCP 47 language -> its first OpenType language tag, by the crate's own mapping
+    lt = q(shim, [f"tagslang {xlang(l)}" for l in LANG_POOL + [OTHER_LANG]], nproc=1)
+    ltag = [tag_str(int(o.split()[1].split(",")[0])) if o.startswith("ok ") else None for o in lt]
+    langs = [(l, t) for l, t in zip(LANG_POOL, ltag[:-1]) if t and t != ltag[-1]] if ltag[-1] else []
+    cases = []   # (script data, variant, dir, explicit script?, pre, word, post as class words, language mode)
+    info, variants = {}, {}
     for sd in scripts:
         cl = [x for x in CLASSES if x in sd.alpha]
         ctxs = [""] + cl
         nc = len(cl)
-        mx = 1
-        while (nc + 1) ** 2 * sum(nc ** i for i in range(1, mx + 2)) <= per_script and mx < 6:
-            mx += 1
-        for pre in ctxs:
-            for post in ctxs:
-                for ln in range(1, mx + 1):
-                    for w in itertools.product(cl, repeat=ln):
-                        cases.append((sd, sd.dir, True, pre, "".join(w), post))
+        variants[sd.iso] = vs = e2e_variants(sd, r.choice(langs) if langs else None)
+        lens = {}
+        for var in vs:
+            # layouts that are only counted get a token share
+            idle = var.chosen is None or e2e_exempt(sd, sd.dir, var.chosen)
+            budget = per_script if var.main else max(per_script // (64 if idle else 8), 1)
+            mx = 1
+            while (nc + 1) ** 2 * sum(nc ** i for i in range(1, mx + 2)) <= budget and mx < 6:
+                mx += 1
+            lens[var.name] = mx
+            for pre in ctxs:
+                for post in ctxs:
+                    for ln in range(1, mx + 1):
+                        for w in itertools.product(cl, repeat=ln):
+                            cases.append((sd, var, sd.dir, True, pre, "".join(w), post, "match" if var.lang else None))
         info[sd.iso] = {"ot": [tag_str(t) for t in sd.ot], "dir": sd.dir, "shaper": sd.shaper, "classes": "".join(cl),
                         "letters_in_font": len(sd.letters), "joining_letters_of_script": sd.n_letters,
                         "borrowed": ["%04X" % c for c in sorted(sd.foreign)],
-                        "exhaustive_len": mx, "guessable": sd.own_ok}
-    for _ in range(n if scripts else 0):
+                        "exhaustive_len": lens[vs[0].name], "guessable": sd.own_ok,
+                        "variants": {v.name: {"chosen": v.chosen, "exhaustive_len": lens[v.name],
+                                              **({"language": list(v.lang)} if v.lang else {})} for v in vs}}
+    for k in range(2 * n if scripts else 0):
         sd = r.choice(scripts)
+        vs = variants[sd.iso]
+        var = vs[0] if k < n else r.choice(vs[1:])
         wts = [x for x in "UULLRRRDDDDCTTTAAS" if x in sd.alpha]
         # vertical text: every script but those of the Arabic shaper (ot_shaper.rs: "Arabic shaping is applicable only
         # to horizontal layout; for vertical text, just use the generic shaper instead")
         d = "t" if sd.shaper != "arabic" and r.chance(1, 5) else sd.dir
-        cases.append((sd, d, not r.chance(1, 4), rand_word(r, r.choice([0, 1, 2, 5]), wts),
-                      rand_word(r, r.choice([5, 8, 12, 30]), wts) or "D", rand_word(r, r.choice([0, 1, 2, 5]), wts)))
-    fontlines = {sd.iso: f"font c11e2e{sd.iso} " + fontbuild.hexfont(e2e_font(sd)) for sd in scripts}
+        lm = r.choice(["match", "match", "absent", "other"]) if var.lang else None
+        cases.append((sd, var, d, not r.chance(1, 4), rand_word(r, r.choice([0, 1, 2, 5]), wts),
+                      rand_word(r, r.choice([5, 8, 12, 30]), wts) or "D", rand_word(r, r.choice([0, 1, 2, 5]), wts), lm))
+    fid = {(sd.iso, v.name): f"c11e2e{sd.iso}v{i}" for sd in scripts for i, v in enumerate(variants[sd.iso])}
+    fontlines = {(sd.iso, v.name): f"font {fid[(sd.iso, v.name)]} " + fontbuild.hexfont(e2e_font(sd, v))
+                 for sd in scripts for v in variants[sd.iso]}
     lines, oracle, meta = [], [], []
-    for sd, d, explicit, pre, w, post in cases:
+    for sd, var, d, explicit, pre, w, post, lm in cases:
         pick = lambda word: [r.choice(sd.alpha[x]) for x in word]
         p, t, q_ = pick(pre), pick(w), pick(post)
         if not explicit:
@@ -611,18 +699,19 @@ def shape_e2e(ctx, shim, model, ch, r, n, per_script):
                 explicit = True       # the first character with a script of its own must be one of this script
         hx = lambda xs: ",".join("%x" % c for c in xs) or "-"
         text = ",".join("%x:%d" % (c, i) for i, c in enumerate(t))
+        lang = xlang(var.lang[0]) if lm == "match" else xlang(OTHER_LANG) if lm == "other" else "-"
         # flags 4 | 16 = PRESERVE_DEFAULT_IGNORABLES | DO_NOT_INSERT_DOTTED_CIRCLE, cluster level 1 = monotone characters
-        lines.append(f"shape c11e2e{sd.iso} {d} {sd.iso if explicit else '-'} - 20 1 - {hx(p)} {hx(q_)} {text}")
+        lines.append(f"shape {fid[(sd.iso, var.name)]} {d} {sd.iso if explicit else '-'} {lang} 20 1 - {hx(p)} {hx(q_)} {text}")
         oracle.append(f"arabic cls 0,0,0,0,0,0,0,0 {pre or '-'} {w} {post or '-'}")
-        meta.append((sd, d, explicit, t, not any(c in sd.foreign for c in p + t + q_)))
+        meta.append((sd, var, d, explicit, t, not any(c in sd.foreign for c in p + t + q_), lm))
     groups, gidx = [], []
     by = {}
-    for i, (sd, _, _, _, _) in enumerate(meta):
-        by.setdefault(sd.iso, []).append(i)
-    for name, idx in by.items():
+    for i, m in enumerate(meta):
+        by.setdefault((m[0].iso, m[1].name), []).append(i)
+    for key, idx in by.items():
         for j in range(0, len(idx), 4000):
             part = idx[j:j + 4000]
-            groups.append([fontlines[name]] + [lines[i] for i in part])
+            groups.append([fontlines[key]] + [lines[i] for i in part])
             gidx.append(part)
     outs = [None] * len(lines)
     for g, part, o in zip(groups, gidx, vlib.run_groups(shim, groups)):
@@ -634,14 +723,29 @@ def shape_e2e(ctx, shim, model, ch, r, n, per_script):
             outs[i] = x
     spec = q(model, oracle)
     bad = 0
-    dist, per, nbad, modes, shown = {}, {}, {}, {}, {}
-    for ln, orc, (sd, d, explicit, t, pure), o, sp in zip(lines, oracle, meta, outs, spec):
+    dist, per, nbad, modes, shown, pervar, nbadvar, unjudged = {}, {}, {}, {}, {}, {}, {}, {}
+    for ln, orc, (sd, var, d, explicit, t, pure, lm), o, sp in zip(lines, oracle, meta, outs, spec):
         k = len(sd.letters)
-        want = [int(x) for x in sp.split()[1:]]
-        if sd.iso == "Mong":
-            for i in range(1, len(want)):
-                if t[i] in FVS:
-                    want[i] = want[i - 1]
+        per[sd.iso] = per.get(sd.iso, 0) + 1
+        pervar[var.name] = pervar.get(var.name, 0) + 1
+        mode = ("vertical" if d == "t" else "horizontal") + ("" if explicit else "+guessed-script") + \
+               ({"match": "+language", "other": "+other-language", "absent": "+no-language"}[lm] if lm else "")
+        modes[mode] = modes.get(mode, 0) + 1
+        if var.chosen is None or e2e_exempt(sd, d, var.chosen):
+            why = "no usable script record" if var.chosen is None else \
+                  f"default shaper by design ({'vertical' if d in 'tb' else var.chosen + ' chosen'}, shaper of the script: {sd.shaper})"
+            unjudged[why] = unjudged.get(why, 0) + 1
+            continue
+        if lm in ("absent", "other"):
+            # the features sit under a language system the buffer language does not select, and the default language
+            # system has none: no positional feature may be applied
+            want = [7] * len(t)
+        else:
+            want = [int(x) for x in sp.split()[1:]]
+            if sd.iso == "Mong":
+                for i in range(1, len(want)):
+                    if t[i] in FVS:
+                        want[i] = want[i - 1]
         got, got_letters = None, None
         f = o.split()
         if f and f[0] == "ok" and int(f[1]) == len(t):
@@ -652,13 +756,11 @@ def shape_e2e(ctx, shim, model, ch, r, n, per_script):
             got_letters = sorted(1 + (g - 1) % k for g in gids)
             for a in got:
                 dist[a] = dist.get(a, 0) + 1
-        per[sd.iso] = per.get(sd.iso, 0) + 1
-        mode = ("vertical" if d == "t" else "horizontal") + ("" if explicit else "+guessed-script")
-        modes[mode] = modes.get(mode, 0) + 1
         ok = got == want and got_letters == sorted(1 + sd.letters.index(c) for c in t)
         if not ok:
             bad += 1
             nbad[sd.iso] = nbad.get(sd.iso, 0) + 1
+            nbadvar[var.name] = nbadvar.get(var.name, 0) + 1
             # per script: the first failing input, and the first one without borrowed letters where a letter that should
             # take a positional form gets another form (at most 3 scripts are spelled out, the rest is counted)
             on_letter = pure and got is not None and any(w_ != 7 and g_ != w_ for g_, w_ in zip(got, want))
@@ -666,21 +768,31 @@ def shape_e2e(ctx, shim, model, ch, r, n, per_script):
             seen = shown.setdefault(sd.iso, set())
             if (len(shown) <= 3 or seen) and kind not in seen and not (kind == "any" and "letter" in seen):
                 seen.add(kind)
-                ctx.violation(f"shape() on the positional-forms font of script {sd.iso} (OpenType {'/'.join(tag_str(x) for x in sd.ot)}, "
-                              f"{mode}): forms {got} differ from the spec {want} for {orc}",
-                              {"stage": "search", "stream": "shape-e2e", "script": sd.iso, "mode": mode,
-                               "font_line": fontlines[sd.iso], "request": ln,
+                layout = "; ".join(f"'{x['tag']}'" + ("" if x.get("default") and x["default"]["features"] else " (default language system without features)")
+                                   + "".join(f" + language system '{l['tag']}'" for l in x["langs"]) for x in var.records)
+                ctx.violation(f"shape() on the positional-forms font of script {sd.iso} (own OpenType tag {'/'.join(tag_str(x) for x in sd.ot)}; "
+                              f"ScriptList of the font: {layout}; chosen script '{var.chosen}'; {mode}): forms {got} differ from the "
+                              f"{'expected (no feature selected) ' if lm in ('absent', 'other') else 'spec '}{want} for {orc}",
+                              {"stage": "search", "stream": "shape-e2e", "script": sd.iso, "mode": mode, "variant": var.name,
+                               "chosen_gsub_script": var.chosen, "font_line": fontlines[(sd.iso, var.name)], "request": ln,
                                "oracle": orc, "expected": want, "observed": o})
-    ctx.note_search("shape-e2e", len(lines), len(lines), mismatches=bad, mismatches_per_script=nbad, per_script=per,
+    ctx.note_search("shape-e2e", len(lines), len(lines) - sum(unjudged.values()), mismatches=bad, mismatches_per_script=nbad,
+                    mismatches_per_variant=nbadvar, per_script=per, per_variant=pervar, counted_not_judged=unjudged,
                     modes=modes, scripts=info,
                     forms={ACTION_NAMES[a] if 0 <= a < 8 else str(a): v for a, v in sorted(dist.items())},
                     rule="public shape(), for every script that owns a joining letter of the crate's table (scripts by the "
-                         "Unicode Script property, letters sampled per class from the table, plus SPACE/ZWNJ/ZWJ/TATWEEL/LRM/CGJ), on a "
-                         "generated font per script: GSUB script = the script's OpenType tag(s) by the crate's own mapping, 7 "
-                         "single-substitution positional features; all class words up to the per-script length x contexts of length "
-                         "0/1 (explicit script, native horizontal direction) plus random words <= 30 with contexts <= 5 (1/4 with "
-                         "guessed script, 1/5 vertical for the scripts not handled by the Arabic shaper); form decoded from the glyph "
-                         "id == Lean spec (+ FVS copy for Mongolian)")
+                         "Unicode Script property, letters sampled per class from the table, plus SPACE/ZWNJ/ZWJ/TATWEEL/LRM/CGJ), on "
+                         "generated fonts per script with 7 single-substitution positional features, one font per ScriptList layout: "
+                         "the script's OpenType tag(s) by the crate's own mapping (main layout; each tag alone where there are "
+                         "several); only 'DFLT' / only 'dflt' / only 'latn'; 'DFLT'+'latn'+an unrelated script; own tag(s) next to "
+                         "an empty 'DFLT'; the features only under a language system (own tag / 'DFLT') with the buffer language "
+                         "selecting it, absent, or another; only an unrelated script.  All class words up to the per-layout length x "
+                         "contexts of length 0/1 (explicit script, native horizontal direction) plus random words <= 30 with "
+                         "contexts <= 5 (1/4 with guessed script, 1/5 vertical for the scripts not handled by the Arabic shaper). "
+                         "Judged: form decoded from the glyph id == Lean spec (+ FVS copy for Mongolian), resp. no form at all "
+                         "when the language system with the features is not selected.  Counted, not judged (non-trivial = judged): "
+                         "layouts where the default shaper is due by design — 'DFLT' chosen for a script other than Arabic, 'latn' "
+                         "chosen for a script of the Universal shaper — and fonts without a usable script record")
 
 
 def replay(ctx, rp):
